@@ -75,4 +75,9 @@ CLAIMED = {
   text="Every enumerated argv is executed by the real CLI code and its stdout/exit code must equal what the library returns for the same arguments (or be exit 1 with a non-result diagnostic); ecosystem names come from the library packages, so a mis-wired registration or swapped arguments are caught for all 20 ecosystems.",
   note="The in-process server is injected with go build -overlay (no source change); main()->os.Exit is validated on the stride executed as real processes.",
   ref="DESIGN.md 4 (C15)"),
+ "C18": dict(
+  technique="bounded-exhaustive enumeration of every accepted version/range string of the universes x every whitespace padding (lead x trail) x a probe set, on the real parsers, String(), Compare and Contains; metamorphic equality with the unpadded / re-parsed value",
+  text="For every enumerated accepted string the text round-trip, the re-parse and every padding are executed and must not change acceptance, String() (up to outer whitespace), any comparison against the probe set or any membership; rejected candidates must stay rejected under padding.",
+  note="Universe = C01's quick universe and the range grammar of engine/gen/ranges.go; paddings from {SP, TAB, CR, LF} (single, thorough: also two-character).",
+  ref="DESIGN.md 4 (C18)"),
 }
